@@ -51,6 +51,32 @@ def mixed():
     return [use(h, 0), heavy(inc(1)), use(h, 1), inc(5)]
 
 
+@task()
+def one_a():
+    return 1
+
+
+@task()
+def one_b():
+    return 1
+
+
+@task()
+def dup_f(x):
+    return x + 100
+
+
+@task()
+def dup_g(x):
+    return x + 200
+
+
+@task()
+def dups():
+    # the same calls reached through different expressions: whether the later one meets a finished call (cache) or a running one (collapsed job) is timing
+    return [dup_f(1), dup_g(1), dup_f(one_a()), dup_g(one_b())]
+
+
 @register_executor("c07_ordered")
 class OrderedExecutor(Executor):
     """runs task functions inline but reports completions in a controllable order (batches reversed or interleaved)"""
@@ -77,11 +103,37 @@ class OrderedExecutor(Executor):
                 self._scheduler.reject_job(job, e)
 
 
+class ManualExecutor(Executor):
+    """holds submitted jobs and completes exactly one of them, chosen by a priority list of task names, each time the scheduler is idle"""
+    def __init__(self, name, order):
+        super().__init__(name)
+        self.order, self.waiting = order, []
+
+    def submit(self, job):
+        self.waiting.append(job)
+
+    def release_next(self):
+        if not self.waiting:
+            return
+        self.waiting.sort(key=lambda job: self.order.index(job.task.name))
+        job = self.waiting.pop(0)
+        try:
+            self._scheduler.done_job(job, job.task.func(*job.args[0], **job.args[1]))
+        except Exception as e:
+            self._scheduler.reject_job(job, e)
+
+
 def run(expr_fn, limit, mode):
     cfg = {"executors.default": {"type": "c07_ordered", "mode": mode}}
     if limit is not None:
         cfg["limits"] = {"r": str(limit)}
     s = quiet_scheduler(cfg)
+    if isinstance(mode, tuple):
+        # one completion per idle tick of the event loop, in the prescribed priority order
+        ex = ManualExecutor("default", ["dups"] + list(mode))
+        s.add_executor(ex)
+        s.job_status_interval = 0.02
+        s.log_job_statuses = ex.release_next
     with silence():
         val = s.run(expr_fn())
     sess = s.backend.session
@@ -89,7 +141,7 @@ def run(expr_fn, limit, mode):
                 handle_states=sorted(h.hash for h in sess.query(HandleRow).all()), argument_values=sorted({a.value_hash for a in sess.query(Argument).all()}))
 
 
-import signal
+import signal, itertools
 
 
 def _alarm(sig, frm):
@@ -97,14 +149,17 @@ def _alarm(sig, frm):
 
 
 signal.signal(signal.SIGALRM, _alarm)
-WORKFLOWS = {"share_handle(3)": lambda: share_handle(3), "chain(3)": lambda: chain(3), "mixed": lambda: mixed(), "share_handle(2)": lambda: share_handle(2)}
+WORKFLOWS = {"share_handle(3)": lambda: share_handle(3), "chain(3)": lambda: chain(3), "mixed": lambda: mixed(), "share_handle(2)": lambda: share_handle(2), "dups": lambda: dups()}
 n = 0
 w = None
 samples = []
 for name, fn in WORKFLOWS.items():
     ref = None
+    perms = list(itertools.permutations(["one_a", "one_b", "dup_f", "dup_g"])) if name == "dups" else []
+    if os.environ.get("VERIF_TIER", "quick") != "thorough":
+        perms = perms[::4]
     for limit in (3, 2, 1, None):
-        for mode in ("fifo", "reverse", "interleave"):
+        for mode in ("fifo", "reverse", "interleave") + (tuple(perms) if limit == 3 else ()):
             if name == "mixed" and limit in (1, None):
                 continue    # heavy needs two units
             n += 1
@@ -136,4 +191,4 @@ for name, fn in WORKFLOWS.items():
         break
     samples.append(dict(workflow=name, call_nodes=len(ref[2]["call_hashes"]), handle_states=len(ref[2]["handle_states"])))
 finish(w is not None, witness=w, evaluations=n, samples=samples,
-       bound="4 workflows (fan-out over a shared handle, a chain, mixed limits) x limits {3, 2, 1, not configured (= 1)} x completion orders {fifo, reversed, interleaved} on a controllable in-process executor")
+       bound="5 workflows (fan-out over a shared handle, a chain, mixed limits, equal calls reached through different expressions) x limits {3, 2, 1, not configured (= 1)} x completion orders {fifo, reversed, interleaved} on a controllable in-process executor; the duplicate-call workflow also under 6 (thorough: 24) one-at-a-time completion orders")
